@@ -42,6 +42,14 @@ CASES = [
     ("comm.py", "        if self.dev.data.div_supported:\n            # send div request\n            self._nxslib_channels_div()", "        if True:\n            # send div request\n            self._nxslib_channels_div()", "CfgShape", "translator_site_missing_CfgShape_channelsWriteShape"),
     ("nxscope.py", "            self.ch_disable_all(True)\n", "", "CfgShape", "translator_site_missing_CfgShape_disconnectShape"),
     ("nxscope.py", "                        for que in self._sub_q[chan]:\n                            que.put(samples[chan])", "                        for que in self._sub_q[chan][:1]:\n                            que.put(samples[chan])", "CfgShape", "translator_site_missing_CfgShape_fanoutShape"),
+    # whole-body source pins (harness/translate_pins.py): reviewer edits that no shape regex saw
+    ("intf/iintf.py", "        if self._write_padding:\n", "        if self._write_padding:\n            data = data.rstrip(b\"\\x00\")\n", "PinsC17", "translator_site_missing_PinsC17_iintf_CommInterfaceCommon_data_align"),
+    ("nxscope.py", "        self, chans: list[int] | int, writenow: bool = False\n    ) -> None:\n        \"\"\"Enable a given channels.", "        self, chans: list[int] | int, writenow: bool = True\n    ) -> None:\n        \"\"\"Enable a given channels.", "PinsC07", "translator_site_missing_PinsC07_nxscope_NxscopeHandler_ch_enable"),
+    ("proto/parserecv.py", "        if hdr.flen > len(data):\n            return\n", "        if hdr.flen > len(data):\n            return\n        if hdr.flen > 64:\n            return\n", "PinsC02", "translator_site_missing_PinsC02_parserecv_ParseRecv_recv_handle"),
+    ("comm.py", "            # accumulate data\n            _bytes += rdata\n", "            # accumulate data\n            _bytes += rdata\n            if len(_bytes) > 1024:\n                _bytes = _bytes[-1024:]\n", "PinsC03", "translator_site_missing_PinsC03_comm_CommHandler__read_frame"),
+    ("dev.py", "        if self._initdone:\n            if name not in", "        if value is None and self._initdone:\n            return\n        if self._initdone:\n            if name not in", "PinsC19", "translator_site_missing_PinsC19_dev_DDeviceChannelData___setattr"),
+    # a comment / docstring / formatting change is NOT a change
+    ("comm.py", "            # accumulate data\n            _bytes += rdata\n", "            # gather\n            _bytes += (rdata)\n", "PinsC03", "=UNCHANGED"),
 ]
 
 
@@ -65,7 +73,13 @@ def main():
             translate.run(root, out)
             t0 = open(os.path.join(out0, gen + ".lean")).read()
             t1 = open(os.path.join(out, gen + ".lean")).read()
-            if expect in t1 and expect not in t0:
+            if expect == "=UNCHANGED":
+                if t0 == t1:
+                    print(f"ok   case {i}: {rel}: {gen}.lean unchanged by a comment / formatting edit")
+                else:
+                    print(f"FAIL case {i}: {rel}: {gen}.lean changed by a harmless edit")
+                    fails += 1
+            elif expect in t1 and expect not in t0:
                 print(f"ok   case {i}: {rel}: {gen}.lean now has {expect[:60]!r}")
             else:
                 print(f"FAIL case {i}: {rel}: expected {expect!r} in {gen}.lean (changed={t0 != t1})")
